@@ -6,11 +6,11 @@ package dig
 
 import "reflect"
 
-func verifTraceNew(*Container)                                          {}
-func verifTraceScope(_, _ *Scope)                                       {}
-func verifTraceProvide(_, _ *Scope, _ *constructorNode, _ error)        {}
-func verifTraceDecorate(*Scope, *decoratorNode)                         {}
-func verifTraceInvoke(*Scope, paramList) func(*error)                   { return verifNoEnd }
-func verifNoEnd(*error)                                                 {}
-func verifTraceEnter(containerStore, string, interface{})               {}
-func verifTraceCommit(string, interface{}, resultList, []reflect.Value) {}
+func verifTraceNew(*Container)                                                        {}
+func verifTraceScope(_, _ *Scope)                                                     {}
+func verifTraceProvide(_, _ *Scope, _ *constructorNode, _ error)                      {}
+func verifTraceDecorate(*Scope, *decoratorNode)                                       {}
+func verifTraceInvoke(*Scope, paramList) func(*error)                                 { return verifNoEnd }
+func verifNoEnd(*error)                                                               {}
+func verifTraceEnter(containerStore, string, interface{}, paramList, []reflect.Value) {}
+func verifTraceCommit(string, interface{}, resultList, []reflect.Value)               {}
